@@ -28,11 +28,11 @@ def main(tier):
         sub = behs if tier == 'thorough' else behs[::3]
         n, nt = progfam.replay(chk, sub, 4, ['--eager'], OWNED, tag=fam + 'E', mode='expr', jobs=12)
         total += n
-        n, nt = progfam.replay(chk, sub, 4, ['--heldfirst'], OWNED, tag=fam + 'H', mode='expr', jobs=12)
+        n, nt = progfam.replay(chk, sub if tier == 'thorough' else sub[::2], 4, ['--heldfirst'], OWNED, tag=fam + 'H', mode='expr', jobs=12)
         total += n
         # general position: the named lattice transforms replaced by generic rotations / translations / scales / mirrors;
         # the lazily and the eagerly built solid must agree (volume, status, winding at sample points away from the surface)
-        n, nt = progfam.replay(chk, sub, 4, ['--generic'], OWNED, tag=fam + 'G', mode='expr', jobs=12)
+        n, nt = progfam.replay(chk, sub if tier == 'thorough' else sub[::2], 4, ['--generic'], OWNED, tag=fam + 'G', mode='expr', jobs=12)
         total += n
     num = 60 if tier == 'quick' else 2500
     behs, r = progfam.generate('GenC03sim.cfg', simulate=num, timeout=3000)
